@@ -468,7 +468,7 @@ func (w *world) ownOnly(n int) {
 func (w *world) randomLoop(events int) {
 	rng, r := w.rng, w.r
 	w.phase = "random-loop"
-	for i := 0; i < events; i++ {
+	for i := 0; i < events && !w.broken; i++ {
 		w.evNo++
 		regs := w.liveRegions()
 		if len(regs) == 0 {
@@ -769,6 +769,9 @@ func main() {
 		r.Count("events_total", int64(w.evNo))
 		w.close()
 	}
+
+	pairPhase(r, rng)
+	flushFindings(r)
 
 	stress(r, rng)
 	flushFindings(r)
